@@ -13,6 +13,8 @@ def nt(t):
         return [k, t[1]]
     if k == "fn":
         return ["fn", [nt(a) for a in t[1]], nt(t[2])]
+    if k == "tup":
+        return ["tup", [nt(a) for a in t[1]]]
     raise ValueError(t)
 
 
@@ -69,6 +71,7 @@ def typed(prog):
             o["rt"] = nt(o["rt"])
             walk(o["body"])
     p.setdefault("exns", [])
+    p["exnp"] = [{"exn": d["exn"], "t": nt(d["t"])} for d in p.get("exnp", [])]
     p.setdefault("macs", [])
     for m in p["macs"]:
         walk(m["body"])
